@@ -14,6 +14,8 @@ TOL = '0x1p-30'     # ~ 9.3e-10
 TOLW = '0x1p-21'    # ~ 4.8e-7: an exponent inside the serializer's 1e-8 window is rounded to the special gate
 PRE = (gates.COQ_HEADER + 'From Coq Require Import String.\nFrom VF Require Import Sim.Ref Vendor.IonQ.\n'
        'Open Scope string_scope.\n')
+PRE_D = ('From Coq Require Import List ZArith NArith Bool.\nFrom VF Require Import Base.Harness Codec.MetaChunks.\n'
+         'Import ListNotations.\nOpen Scope Z_scope.\n')
 SPECIALS = [1.0, 0.5, -0.5, 0.25, -0.25]
 ATOL = 1e-8
 
@@ -483,6 +485,170 @@ def report(ctx, cirq, mods, stream, case):
                      f'(up to global phase) of the circuit {small["ops"]}', dict(kind='ionq_payload', case=small))
         return
     ctx.mark_broken(f'correspondence:{stream}', f'{case}')
+
+
+# ---------------------------------------------------------------------------------------------------
+# measurement metadata: keys -> targets through the codec model (exact, vm_compute)
+# ---------------------------------------------------------------------------------------------------
+def cps(s):
+    return '[' + '; '.join(str(ord(c)) for c in s) + ']'
+
+
+def recs_term(recs):
+    """[(key string, [targets])] -> Gallina list record"""
+    return '[' + '; '.join(f'({cps(k)}, [{"; ".join(str(int(t)) for t in ts)}]%N)' for k, ts in recs) + ']'
+
+
+def meta_chunks(md):
+    """metadata dict of one circuit -> the measurementN values in order (the dict may hold nothing else)."""
+    vals = []
+    for i, (k, v) in enumerate(md.items()):
+        if k != f'measurement{i}' or not isinstance(v, str):
+            raise Unrecognised(f'metadata entry {k!r}: {v!r}')
+        vals.append(v)
+    return vals
+
+
+def chunks_term(vals):
+    return '[' + '; '.join(cps(v) for v in vals) + ']'
+
+
+def fake_job(mods, metadata, nq=1, target='qpu', shots=1):
+    md = dict(metadata)
+    md['shots'] = str(shots)
+    return mods['cirq_ionq'].Job(client=None, job_dict={'id': 'j', 'status': 'completed', 'backend': target, 'metadata': md,
+                                                        'stats': {'qubits': str(nq)}})
+
+
+def impl_measurement_dict(mods, metadata, circuit_index=0):
+    try:
+        d = fake_job(mods, metadata).measurement_dict(circuit_index=circuit_index)
+    except Exception as e:
+        return None
+    return [(k, list(v)) for k, v in d.items()]
+
+
+def meta_exprs(mods, recs, serialized, size=40):
+    """recs: what the circuit measures; serialized: metadata dict of the real serializer, or the exception it raised.
+    Returns (expr comparing the serializer with the model, expr comparing job.measurement_dict with the model, parsed dict)."""
+    if isinstance(serialized, Exception):
+        msg = str(serialized)
+        impl = 'SerBadKey' if 'separator' in msg else 'SerTooLong' if 'too long' in msg else None
+        if impl is None or not isinstance(serialized, ValueError):
+            raise Unrecognised(f'{type(serialized).__name__}: {msg}')
+        return f'ser_eqb (serialize_measurements {size} {recs_term(recs)}) {impl}', None, None
+    vals = meta_chunks(serialized)
+    e1 = f'ser_eqb (serialize_measurements {size} {recs_term(recs)}) (SerOk {chunks_term(vals)})'
+    parsed = impl_measurement_dict(mods, serialized)
+    pt = 'None' if parsed is None else f'(Some {recs_term(parsed)})'
+    e2 = f'orecords_eqb (measurement_dict {chunks_term(vals)}) {pt}'
+    return e1, e2, parsed
+
+
+def gen_records(rng):
+    """Measurement layouts: 1..6 keys over disjoint targets with indices up to 40, short / long / odd keys."""
+    n = rng.randint(1, 6)
+    pool = rng.sample(range(rng.choice([3, 8, 12, 41])), k=rng.choice([3, 3, 8, 8, 12])) if False else None
+    top = rng.choice([3, 6, 12, 41])
+    pool = list(range(top))
+    rng.shuffle(pool)
+    recs, keys = [], set()
+    mode = rng.random()
+    for i in range(n):
+        if not pool:
+            break
+        k = rng.randint(1, min(len(pool), rng.choice([1, 2, 3, 6])))
+        ts, pool = pool[:k], pool[k:]
+        key = draw_key(rng, long=(mode < 0.35 and i == 0) or mode > 0.9)
+        r = rng.random()
+        if r < 0.04:
+            key = key[:2] + chr(31) + key[2:]
+        elif r < 0.08:
+            key = key + chr(30)
+        if key in keys:
+            continue
+        keys.add(key)
+        recs.append((key, ts))
+    return recs
+
+
+def metadata_stream(ctx, cirq, mods, dchecks, n):
+    rng = ctx.rng
+    ser = mods['cirq_ionq'].Serializer()
+    for _ in range(n):
+        recs = gen_records(rng)
+        circuit = cirq.Circuit(cirq.measure(*[cirq.LineQubit(t) for t in ts], key=k) for k, ts in recs)
+        try:
+            out = ser.serialize_single_circuit(circuit).metadata
+        except Exception as e:
+            out = e
+        total = len(chr(30).join(k + chr(31) + ','.join(map(str, ts)) for k, ts in recs))
+        ctx.count('ionq_metadata', [[k, ts] for k, ts in recs], len(recs) >= 2 or total > 40,
+                  sample=dict(records=recs, metadata=repr(out)[:300]))
+        add_meta_checks(ctx, mods, dchecks, 'ionq_metadata', recs, out, dict(kind='ionq_metadata', records=[[k, ts] for k, ts in recs]))
+
+
+def add_meta_checks(ctx, mods, dchecks, stream, recs, out, rep):
+    try:
+        e1, e2, parsed = meta_exprs(mods, recs, out)
+    except Unrecognised as e:
+        ctx.mark_broken(f'correspondence:{stream}', f'metadata not covered by the model: {e}')
+        return
+    dchecks.append((stream, e1, rep, 'serialize'))
+    if e2 is not None:
+        dchecks.append((stream, e2, rep, 'parse'))
+        # spec-level oracle on the real code: what comes back is what the circuit measures
+        if parsed != [(k, list(ts)) for k, ts in recs] and len({k for k, _ in recs}) == len(recs):
+            ctx.disagree(f'correspondence:{stream}', f'{recs} -> {parsed}', f'{stream}:roundtrip',
+                         f'measurement keys/targets {recs} come back from the job metadata as {parsed}', rep)
+
+
+def evaluate_discrete(ctx, cirq, mods, dchecks, SH=150):
+    shards = []
+    for s0 in range(0, len(dchecks), SH):
+        part = dchecks[s0:s0 + SH]
+        text = PRE_D + 'Definition checks : list bool := [\n' + ';\n'.join(c[1] for c in part) + '].\nEval vm_compute in failing (fun b => b) checks.\n'
+        shards.append((f'c17d_{ctx.seed}_{s0 // SH}', text))
+    outs = coq.coq_eval_many(shards, workers=12)
+    for si, out in enumerate(outs):
+        for idx in coq.parse_nat_list(coq.parse_evals(out)[0]):
+            stream, expr, rep, what = dchecks[si * SH + idx]
+            report_discrete(ctx, cirq, mods, stream, rep, what)
+
+
+def report_discrete(ctx, cirq, mods, stream, rep, what):
+    """The model and the implementation disagree on a discrete observable: decide on the real code."""
+    holds = None
+    try:
+        holds = replay_discrete(cirq, mods, rep)
+    except Exception as e:
+        ctx.mark_broken(f'correspondence:{stream}', f'{what}: oracle failed: {type(e).__name__}: {e}')
+        return
+    if holds:
+        ctx.mark_broken(f'correspondence:{stream}', f'{what}: model differs from the code on {json.dumps(rep)[:400]} although the property holds there')
+    else:
+        ctx.disagree(f'correspondence:{stream}', f'{what}: {json.dumps(rep)[:400]}', f'{stream}:{what}',
+                     f'{stream}: {what} of {json.dumps(rep)[:300]} is not what the property requires', rep)
+
+
+def replay_discrete(cirq, mods, rep):
+    """Spec-level oracles written in Python, on the real code.  True iff the property holds on the case."""
+    kind = rep['kind']
+    if kind == 'ionq_metadata':
+        recs = [(k, list(ts)) for k, ts in rep['records']]
+        circuit = cirq.Circuit(cirq.measure(*[cirq.LineQubit(t) for t in ts], key=k) for k, ts in recs)
+        try:
+            md = mods['cirq_ionq'].Serializer().serialize_single_circuit(circuit).metadata
+        except ValueError:
+            full = chr(30).join(k + chr(31) + ','.join(map(str, ts)) for k, ts in recs)
+            return any(chr(30) in k or chr(31) in k for k, _ in recs) or len(full) > 360      # a documented rejection
+        vals = meta_chunks(md)
+        if any(len(v) > 40 for v in vals) or len(vals) > 9:
+            return False
+        return impl_measurement_dict(mods, md) == recs
+    if kind == 'ionq_results':
+        return results_oracle(cirq, mods, rep)
+    raise KeyError(kind)
 
 
 def run(ctx):
